@@ -1,8 +1,8 @@
 (* Single entry point of the extracted model runner: name + argument -> observation. *)
 From Coq Require Import List NArith ZArith Bool.
 From Coq Require Import QArith.
-From NV Require Import Prelude.Str Prelude.Res Prelude.Sx Model.Url Model.Redirect Model.Bucket Model.Ip Model.Titan Model.ServerProto Model.Proxy.
-From NV Require Spec.C19 Spec.C16 Spec.C10 Spec.C09 Spec.ServerTrace Spec.C01 Spec.C04 Spec.C07 Spec.C15 Spec.C08 Spec.C17.
+From NV Require Import Prelude.Str Prelude.Res Prelude.Sx Model.Url Model.Redirect Model.Bucket Model.Ip Model.Titan Model.ServerProto Model.Proxy Model.ClientProto Model.Tofu Model.Session.
+From NV Require Spec.C19 Spec.C16 Spec.C10 Spec.C09 Spec.ServerTrace Spec.C01 Spec.C04 Spec.C07 Spec.C15 Spec.C08 Spec.C17 Spec.C13 Spec.C03 Spec.C12 Spec.C11 Spec.C18.
 Import ListNotations.
 Open Scope N_scope.
 
@@ -159,6 +159,89 @@ Definition read_cfg (x : sx) : ServerTrace.cfg :=
      ServerTrace.c_ip := as_str (nth_sx 2 x); ServerTrace.c_fp := read_ostr (nth_sx 3 x);
      ServerTrace.c_hres := read_hres (nth_sx 4 x) |}.
 
+(* ---- client protocol ---- *)
+Definition decode_of_table (t : sx) (label body : str) : option str :=
+  match lookup_tab label (as_list t) with
+  | Some (L rows) => match lookup_tab body rows with Some (L [A x]) => Some x | _ => None end
+  | _ => None
+  end.
+Definition read_cevent (x : sx) : cevent :=
+  let tag := as_str (nth_sx 0 x) in
+  if eqb tag (lit "connected") then CConnected
+  else if eqb tag (lit "send") then CSend
+  else if eqb tag (lit "data") then CData (as_str (nth_sx 1 x))
+  else CLost (read_ostr (nth_sx 1 x)).
+Definition show_caction (a : caction) : sx :=
+  match a with CWrite b => L [sT "w"; A b] | CClose => L [sT "c"] | CEscape k => L [sT "escape"; A k] end.
+Definition show_cbody (b : cbody) : sx :=
+  match b with CNone => L [] | CText t => L [sT "t"; A t] | CBytes x => L [sT "b"; A x] end.
+Definition show_cresult (r : cresult) : sx :=
+  match r with
+  | ROk c => L [sT "ok"; sN (cr_status c); A (cr_meta c); show_cbody (cr_body c)]
+  | RErr k => L [sT "err"; A k]
+  end.
+Definition show_fut (f : fut) : sx := match f with Pending => L [sT "pending"] | Done r => show_cresult r end.
+Definition read_cbody (x : sx) : cbody :=
+  match as_list x with
+  | [A t; A v] => if eqb t (lit "t") then CText v else CBytes v
+  | _ => CNone
+  end.
+Definition read_fut (x : sx) : fut :=
+  let tag := as_str (nth_sx 0 x) in
+  if eqb tag (lit "ok") then Done (ROk {| cr_status := as_N (nth_sx 1 x); cr_meta := as_str (nth_sx 2 x); cr_body := read_cbody (nth_sx 3 x) |})
+  else if eqb tag (lit "err") then Done (RErr (as_str (nth_sx 1 x)))
+  else Pending.
+
+(* ---- trust store ---- *)
+Definition read_row (x : sx) : row :=
+  {| r_host := as_str (nth_sx 0 x); r_port := as_N (nth_sx 1 x); r_fp := as_str (nth_sx 2 x); r_first := as_str (nth_sx 3 x) |}.
+Definition show_row (r : row) : sx := L [A (r_host r); sN (r_port r); A (r_fp r); A (r_first r)].
+Definition read_store (x : sx) : store := map read_row (as_list x).
+Definition show_store (s : store) : sx := L (map show_row s).
+Definition read_entry (x : sx) : entry :=
+  {| e_host := as_str (nth_sx 0 x); e_port := as_Z (nth_sx 1 x); e_port_is_int := as_bool (nth_sx 2 x);
+     e_fp := as_str (nth_sx 3 x); e_first := as_str (nth_sx 4 x); e_complete := as_bool (nth_sx 5 x) |}.
+Definition read_cb (x : sx) : option (str -> N -> str -> str -> cb_result) :=
+  let t := as_str x in
+  if eqb t (lit "update") then Some (fun _ _ _ _ => CbUpdate)
+  else if eqb t (lit "skip") then Some (fun _ _ _ _ => CbSkip)
+  else if eqb t (lit "raise") then Some (fun _ _ _ _ => CbRaise)
+  else None.
+(* statements of an operation on store s, and whether it completes without raising *)
+Definition op_stmts (s : store) (op : sx) : list stmt * bool :=
+  let tag := as_str (nth_sx 0 op) in
+  if eqb tag (lit "trust") then
+    (trust_stmts s (as_str (nth_sx 1 op)) (as_N (nth_sx 2 op)) (as_str (nth_sx 3 op)) (as_str (nth_sx 4 op)), true)
+  else if eqb tag (lit "verify") then
+    (snd (verify s (as_str (nth_sx 1 op)) (as_N (nth_sx 2 op)) (as_str (nth_sx 3 op))), true)
+  else if eqb tag (lit "revoke") then ([SDelete (as_str (nth_sx 1 op)) (as_N (nth_sx 2 op)); SCommit], true)
+  else if eqb tag (lit "revoke_host") then ([SDeleteHost (as_str (nth_sx 1 op)); SCommit], true)
+  else if eqb tag (lit "clear") then ([SDeleteAll; SCommit], true)
+  else if eqb tag (lit "import") then
+    import_stmts (read_cb (nth_sx 3 op)) s (as_bool (nth_sx 1 op)) (map read_entry (as_list (nth_sx 2 op)))
+  else ([], true).
+Definition read_presented (x : sx) : presented :=
+  if eqb (as_str (nth_sx 0 x)) (lit "cert") then PCert (as_str (nth_sx 1 x)) else PUnreadable.
+Definition show_sresult (r : session_result) : sx :=
+  match r with
+  | SAccepted => L [sT "accepted"]
+  | SChanged o n => L [sT "changed"; A o; A n]
+  | SRefused => L [sT "refused"]
+  end.
+Definition read_sresult (x : sx) : session_result :=
+  let t := as_str (nth_sx 0 x) in
+  if eqb t (lit "accepted") then SAccepted
+  else if eqb t (lit "changed") then SChanged (as_str (nth_sx 1 x)) (as_str (nth_sx 2 x))
+  else SRefused.
+Definition show_sevent (e : sevent) : sx :=
+  match e with SWrite b => L [sT "w"; A b] | SVerified r => L [sT "v"; show_sresult r] end.
+Definition read_sevent' (x : sx) : sevent :=
+  if eqb (as_str (nth_sx 0 x)) (lit "w") then SWrite (as_str (nth_sx 1 x)) else SVerified (read_sresult (nth_sx 1 x)).
+Definition read_upstream (x : sx) : upstream :=
+  let t := as_str (nth_sx 0 x) in
+  if eqb t (lit "stream") then UStream (as_str (nth_sx 1 x)) (read_ostr (nth_sx 2 x))
+  else if eqb t (lit "connfail") then UConnectFail else UTimeout.
+
 Definition dispatch (name : str) (arg : sx) : sx :=
   if eqb name (lit "parse_url") then
     show_res show_parsed (parse_url (ip6_of_table (nth_sx 1 arg)) (as_str (nth_sx 0 arg)))
@@ -239,5 +322,45 @@ Definition dispatch (name : str) (arg : sx) : sx :=
                                rt_type := if eqb (as_str (nth_sx 1 r)) (lit "exact") then RExact else RPrefix;
                                rt_handler := as_N (nth_sx 2 r) |}) (as_list (nth_sx 0 arg)) in
     match route_to rs (as_str (nth_sx 1 arg)) with Some i => L [sN i] | None => L [] end
+  else if eqb name (lit "client") then
+    (* arg: request send_on_connect decode_body cap table events *)
+    let r := crun (map as_str (as_list (nth_sx 0 arg))) (as_bool (nth_sx 1 arg)) (as_bool (nth_sx 2 arg))
+                  (as_N (nth_sx 3 arg)) (decode_of_table (nth_sx 4 arg)) cinit (map read_cevent (as_list (nth_sx 5 arg))) in
+    L [show_fut (cfut (fst r)); L (map (fun a => L (map show_caction a)) (snd r))]
+  else if eqb name (lit "C13.ok") then
+    (* arg: decode_body cap table stream exc observed *)
+    sB (Spec.C13.ok (as_bool (nth_sx 0 arg)) (as_N (nth_sx 1 arg)) (decode_of_table (nth_sx 2 arg))
+                    (as_str (nth_sx 3 arg)) (read_ostr (nth_sx 4 arg)) (read_fut (nth_sx 5 arg)))
+  else if eqb name (lit "tofu_op") then
+    (* arg: store op -> completes, states visible after a crash before statement k (k = 0..n), final *)
+    let s := read_store (nth_sx 0 arg) in
+    let (l, okb) := op_stmts s (nth_sx 1 arg) in
+    L [sB okb; L (map (fun k => show_store (after_crash s l k)) (seq 0 (S (length l)))); show_store (finish s l okb)]
+  else if eqb name (lit "C12.ok") then
+    sB (Spec.C12.ok (read_store (nth_sx 0 arg)) (read_store (nth_sx 1 arg)) (read_store (nth_sx 2 arg)) (as_bool (nth_sx 3 arg)))
+  else if eqb name (lit "tofu_check") then
+    let r := tofu_check (read_store (nth_sx 0 arg)) (as_str (nth_sx 1 arg)) (as_N (nth_sx 2 arg))
+                        (read_presented (nth_sx 3 arg)) (as_str (nth_sx 4 arg)) in
+    L [show_store (fst r); show_sresult (snd r)]
+  else if eqb name (lit "C03.ok") then
+    sB (Spec.C03.ok (read_store (nth_sx 0 arg)) (as_str (nth_sx 1 arg)) (as_N (nth_sx 2 arg)) (read_presented (nth_sx 3 arg))
+                    (read_sresult (nth_sx 4 arg)) (read_store (nth_sx 5 arg)))
+  else if eqb name (lit "session") then
+    (* arg: request decode_body cap table tofu store h p presented now chunks exc *)
+    let r := session_call (map as_str (as_list (nth_sx 0 arg))) (as_bool (nth_sx 1 arg)) (as_N (nth_sx 2 arg))
+               (decode_of_table (nth_sx 3 arg)) (as_bool (nth_sx 4 arg)) (read_store (nth_sx 5 arg)) (as_str (nth_sx 6 arg))
+               (as_N (nth_sx 7 arg)) (read_presented (nth_sx 8 arg)) (as_str (nth_sx 9 arg))
+               (map as_str (as_list (nth_sx 10 arg))) (read_ostr (nth_sx 11 arg)) in
+    L [show_store (fst (fst r));
+       match snd (fst r) with
+       | CallResult cr => L [sT "result"; show_cresult cr]
+       | CallChanged o n => L [sT "changed"; A o; A n]
+       | CallRefused => L [sT "refused"]
+       end;
+       L (map show_sevent (snd r))]
+  else if eqb name (lit "C11.ok") then sB (Spec.C11.ok (map read_sevent' (as_list (nth_sx 0 arg))))
+  else if eqb name (lit "relay") then A (relay (as_N (nth_sx 0 arg)) (read_upstream (nth_sx 1 arg)))
+  else if eqb name (lit "C18.ok") then
+    sB (Spec.C18.ok (as_N (nth_sx 0 arg)) (read_upstream (nth_sx 1 arg)) (as_str (nth_sx 2 arg)) (as_bool (nth_sx 3 arg)))
   else L [sT "unknown-model"; A name].
 Close Scope N_scope.
